@@ -311,6 +311,10 @@ class SimSock:
         if self._op("recv", n) == "eof":
             return self._eof()
         self.recv_after.append(len(self.wire))
+        if not self.blocking and self.pos < len(self.data) and self.pos >= getattr(self, "avail", len(self.data)):
+            # a non-blocking socket does not wait for the peer's next segment (only the threaded worker ever switches a connection to
+            # non-blocking, while it is parked in the poller: it must switch it back before a handler thread reads from it)
+            raise BlockingIOError(errno.EAGAIN, "Resource temporarily unavailable (simulated non-blocking recv)")
         if self.pos >= len(self.data):
             if self.silence:
                 # the reader waits: time passes, and a keep-alive timeout armed around this read (async workers) fires here
@@ -337,7 +341,14 @@ class SimSock:
         self._op("sendall", len(data))
         self.wire += data
 
+    def segment_arrived(self):
+        """the poller reported the socket readable: the peer's next segment (up to the next cut) is in the receive buffer"""
+        nxt = [c for c in self.cuts if c > self.pos]
+        self.avail = nxt[0] if nxt else len(self.data)
+
     def sendfile(self, file, offset=0, count=None):
+        if not self.blocking:
+            raise ValueError("non-blocking sockets are not supported")      # as socket.sendfile() does
         self._op("sendfile", count or 0)
         content = file.content
         end = len(content) if count is None else min(len(content), offset + count)
@@ -693,6 +704,8 @@ def serve(worker, family, sock, max_dispatch=16):
             worker.nr_conns += 1
             for _ in range(max_dispatch):
                 # what the poller thread does when the socket is readable: enqueue_req -> conn.init() -> handle
+                if hasattr(sock, "segment_arrived"):
+                    sock.segment_arrived()
                 conn.init()
                 keepalive, conn2 = worker.handle(conn)
                 if keepalive and worker.alive:
